@@ -155,6 +155,10 @@ class TimeRange(object):
             if self.end is not None:
                 self.end += float(self.p1_t0)
 
+            # The bounds are P1 times now. Without this, is_in_range() would still subtract t0 before comparing, and a
+            # second call would offset the bounds again.
+            self.absolute = True
+
         return self
 
     def intersect(self, other: 'TimeRange', in_place: bool = True) -> 'TimeRange':
